@@ -101,6 +101,8 @@ def run(res, tier, seed):
             prs.append((s, e))
         rng.shuffle(prs)
         cases.append(prs)
+    offs = [0, -1500, -10**7]
+    cases = [[(s + offs[n % 3], e + offs[n % 3]) for s, e in prs] for n, prs in enumerate(cases)]
     lines = ["mk_iset\t%s\t%s" % (C.fmt_ints([s for s, _ in p]), C.fmt_ints([e for _, e in p])) for p in cases]
     model = C.run_model(lines)
     for n, (prs, mo) in enumerate(zip(cases, model)):
